@@ -33,7 +33,9 @@ var pinFiles = map[string][]string{
 	"C12": {"keyring.go", "keys.go", "signing.go"},
 	"C13": {"fclient/request.go", "signing.go", "spec/servername.go"},
 	"C14": {"authstate.go", "authchain.go", "load.go", "backfill.go"},
-	"C15": {"handlejoin.go", "handleleave.go", "handleinvite.go", "invite.go", "performjoin.go"},
+	"C15": {"handlejoin.go", "handleleave.go", "handleinvite.go", "invite.go", "performjoin.go", "performinvite.go",
+		"eventauth.go:StateNeededForProtoEvent,accumulateStateNeeded,Tuples,AuthEventReferences,AddEvent",
+		"eventcrypto.go:getMXIDMapping,validateMXIDMappingSignatures"},
 	"C16": {"fclient/resolve.go", "fclient/well_known.go", "fclient/client.go", "fclient/dnscache.go", "spec/servername.go"},
 	"C17": {"spec/userid.go", "spec/roomid.go", "spec/servername.go", "spec/senderid.go", "spec/base64.go", "event.go", "eventV2.go:CheckFields", "eventV1.go:CheckFields", "event_builder.go", "eventversion.go"},
 	"C18": {"spec/senderid.go", "eventV1.go", "eventV2.go", "eventV3.go", "event.go", "json.go", "signing.go", "eventcrypto.go", "eventauth.go", "eventcontent.go",
